@@ -794,16 +794,27 @@ func (w *streamWrapper) adaptIn(
 		)
 	}
 	if len(m.ModifyDeadlineAckIds) != 0 {
-		var err error
-		if ret.Delay, err = parse.UUIDsFromStrings(m.ModifyDeadlineAckIds); err != nil {
+		ids, err := parse.UUIDsFromStrings(m.ModifyDeadlineAckIds)
+		if err != nil {
 			return nil, err
 		}
-		// we don't support per-message delay, so take the max delay of the set
-		for _, d := range m.ModifyDeadlineSeconds {
+		// we don't support per-message delay, so take the max delay of the set -
+		// except that a zero deadline is a nack and must stay one when the same
+		// request extends other messages
+		for i, d := range m.ModifyDeadlineSeconds {
 			df := float64(d)
 			if ret.DelaySeconds < df {
 				ret.DelaySeconds = df
 			}
+			if d <= 0 {
+				ret.Requeue = append(ret.Requeue, ids[i])
+			} else {
+				ret.Delay = append(ret.Delay, ids[i])
+			}
+		}
+		if ret.DelaySeconds <= 0 {
+			// nothing is extended: the plain nack request
+			ret.Delay, ret.Requeue = ret.Requeue, nil
 		}
 	}
 	return ret, nil
